@@ -98,6 +98,8 @@ class Fragment(AbstractApplication):
             ctr.sender = None
             raise RuntimeError('Non-payload size {} too large for route MTU {}'.format(orig_size, mtu))
         pyld_blk.delfieldval('btsd')
+        # a decoded block also holds its data as a (raw) payload
+        pyld_blk.remove_payload()
 
         fragments = []
         frag_offset = 0
